@@ -29,6 +29,10 @@ typedef VATA::AutBase::StateType StateType;
 
 namespace {
 
+// C19's oracles judge in C19 runs only (a C20 run makes the same calls under the monitors alone)
+void c19_violation(const std::string& o, const std::string& si, const std::string& d) { if (armed("C19")) vsim::violation(o, si, d); }
+
+
 const char* const SEL_NAMES[] = {"up-nosim", "up-sim", "down-nonrec-nosim", "down-nonrec-sim", "down-rec-nosim", "down-rec-sim", "down-rec-opt-nosim", "down-rec-opt-sim"};
 
 ET::AlphabetType fresh_alphabet() { return ET::AlphabetType(new ET::OnTheFlyAlphabet()); }
@@ -105,26 +109,29 @@ void twin_checks(const std::string& site, const TA& A, const TA& B, Rng& r, long
 	for (long sel = 0; sel < 8; ++sel) {
 		if (!((selmask >> sel) & 1)) continue;
 		int v = incl(a, b, sel, site + ":" + SEL_NAMES[sel]), v2 = incl(a2, b2, sel, site + ":twin:" + SEL_NAMES[sel]);
-		if (v == 2 || v2 == 2) { violation("C19.selection-implemented", site + ":" + SEL_NAMES[sel], "an implemented selection threw NotImplementedException"); continue; }
-		if (v != v2) violation("C19.verdict-invariant-under-renaming", site + ":" + SEL_NAMES[sel], "inclusion verdict " + std::to_string(v) + " for the pair, " + std::to_string(v2) + " for its renamed / re-ordered twin\n  A: " + mdl::to_lit(A).substr(0, 600) + "\n  B: " + mdl::to_lit(B).substr(0, 600));
-		if (expected >= 0 && v != expected) violation("C19.expected-verdict", site + ":" + SEL_NAMES[sel], "the repository's table expects " + std::to_string(expected) + ", the check returned " + std::to_string(v));
-		if (first < 0) { first = v; firstsel = sel; } else if (v != first) violation("C19.all-algorithms-agree", site + ":" + SEL_NAMES[sel], std::string(SEL_NAMES[firstsel]) + " says " + std::to_string(first) + ", " + SEL_NAMES[sel] + " says " + std::to_string(v) + "\n  A: " + mdl::to_lit(A).substr(0, 600) + "\n  B: " + mdl::to_lit(B).substr(0, 600));
+		if (v == 2 || v2 == 2) { c19_violation("C19.selection-implemented", site + ":" + SEL_NAMES[sel], "an implemented selection threw NotImplementedException"); continue; }
+		if (v != v2) c19_violation("C19.verdict-invariant-under-renaming", site + ":" + SEL_NAMES[sel], "inclusion verdict " + std::to_string(v) + " for the pair, " + std::to_string(v2) + " for its renamed / re-ordered twin\n  A: " + mdl::to_lit(A).substr(0, 600) + "\n  B: " + mdl::to_lit(B).substr(0, 600));
+		if (expected >= 0 && v != expected) c19_violation("C19.expected-verdict", site + ":" + SEL_NAMES[sel], "the repository's table expects " + std::to_string(expected) + ", the check returned " + std::to_string(v));
+		if (first < 0) { first = v; firstsel = sel; } else if (v != first) c19_violation("C19.all-algorithms-agree", site + ":" + SEL_NAMES[sel], std::string(SEL_NAMES[firstsel]) + " says " + std::to_string(first) + ", " + SEL_NAMES[sel] + " says " + std::to_string(v) + "\n  A: " + mdl::to_lit(A).substr(0, 600) + "\n  B: " + mdl::to_lit(B).substr(0, 600));
 	}
 	// emptiness
 	api_begin(); api_site(site + ":is-empty"); bool e1 = a.IsLangEmpty(), e2 = a2.IsLangEmpty(); api_end(); observe(uint64_t(e1)); count(c_oracle_evals);
-	if (e1 != e2) violation("C19.emptiness-invariant-under-renaming", site, "IsLangEmpty differs between an automaton and its renamed twin");
+	if (e1 != e2) c19_violation("C19.emptiness-invariant-under-renaming", site, "IsLangEmpty differs between an automaton and its renamed twin");
 	(e1 ? count(c_lang_empty) : count(c_lang_nonempty));
 	if (do_sim) {
 		for (int up = 0; up < 2; ++up) {
 			ET x = a, x2 = a2; TA mx = A, mx2 = A2;
 			// results of the library's operations carry the process-wide default alphabet, whatever the operand's
 			// was; the client re-attaches its own alphabet before reading them through symbol names
-			if (up) { api_begin(); api_site(site + ":useless"); x = a.RemoveUselessStates(); x2 = a2.RemoveUselessStates(); x.SetAlphabet(al1); x2.SetAlphabet(al2); api_end(); mx = read_back(x); mx2 = read_back(x2); if (mdl::rename(mx, pa) != mx2) violation("C19.trimming-invariant-under-renaming", site, "RemoveUselessStates of the twin is not the renamed image"); }
+			// the upward simulation is defined on automata without useless states.  The twins are trimmed by the reference model and
+			// built anew, so that the only library result compared here is the simulation ("maps a computed simulation relation to its
+			// renamed image"); whether the library's own trimming keeps state names is nobody's claim
+			if (up) { mx = mdl::trim_useless(A); if (mx.states().empty()) continue; mx2 = mdl::rename(mx, pa); api_begin(); api_site(site + ":build-trimmed"); x = build(mx, al1, r, false); x2 = build(mx2, al2, r, true); api_end(); }
 			std::set<std::pair<long, long>> R1, R2;
 			if (!sim_of(x, up, R1, mx) || !sim_of(x2, up, R2, mx2)) continue;
 			std::set<std::pair<long, long>> img; for (auto& pr : R1) img.insert(std::make_pair(pa[pr.first], pa[pr.second]));
 			count(c_oracle_evals);
-			if (img != R2) violation(up ? "C19.up-sim-invariant-under-renaming" : "C19.down-sim-invariant-under-renaming", site + (up ? ":sim-up" : ":sim-down"), "the simulation of the renamed twin is not the renamed image of the simulation (" + std::to_string(R1.size()) + " vs " + std::to_string(R2.size()) + " pairs)\n  A: " + mdl::to_lit(mx).substr(0, 800));
+			if (img != R2) c19_violation(up ? "C19.up-sim-invariant-under-renaming" : "C19.down-sim-invariant-under-renaming", site + (up ? ":sim-up" : ":sim-down"), "the simulation of the renamed twin is not the renamed image of the simulation (" + std::to_string(R1.size()) + " vs " + std::to_string(R2.size()) + " pairs)\n  A: " + mdl::to_lit(mx).substr(0, 800));
 		}
 	}
 	if (do_sizes) {
@@ -132,9 +139,9 @@ void twin_checks(const std::string& site, const TA& A, const TA& B, Rng& r, long
 		ET r1 = a.Reduce(), r2 = a2.Reduce(), u1 = a.RemoveUselessStates(), u2 = a2.RemoveUselessStates(), n1 = a.RemoveUnreachableStates(), n2 = a2.RemoveUnreachableStates();
 		r1.SetAlphabet(al1); u1.SetAlphabet(al1); n1.SetAlphabet(al1); r2.SetAlphabet(al2); u2.SetAlphabet(al2); n2.SetAlphabet(al2);
 		api_end(); count(c_oracle_evals);
-		if (read_back(r1).states().size() != read_back(r2).states().size()) violation("C19.reduce-size-invariant", site, "Reduce yields " + std::to_string(read_back(r1).states().size()) + " states for the automaton and " + std::to_string(read_back(r2).states().size()) + " for its twin\n  A: " + mdl::to_lit(A).substr(0, 800));
-		if (read_back(u1).states().size() != read_back(u2).states().size()) violation("C19.trim-size-invariant", site, "RemoveUselessStates yields different state counts for twins");
-		if (read_back(n1).states().size() != read_back(n2).states().size()) violation("C19.trim-size-invariant", site, "RemoveUnreachableStates yields different state counts for twins");
+		if (read_back(r1).states().size() != read_back(r2).states().size()) c19_violation("C19.reduce-size-invariant", site, "Reduce yields " + std::to_string(read_back(r1).states().size()) + " states for the automaton and " + std::to_string(read_back(r2).states().size()) + " for its twin\n  A: " + mdl::to_lit(A).substr(0, 800));
+		if (read_back(u1).states().size() != read_back(u2).states().size()) c19_violation("C19.trim-size-invariant", site, "RemoveUselessStates yields different state counts for twins");
+		if (read_back(n1).states().size() != read_back(n2).states().size()) c19_violation("C19.trim-size-invariant", site, "RemoveUnreachableStates yields different state counts for twins");
 	}
 	note_case(mix64(A.hash(), B.hash()));
 }
@@ -149,7 +156,7 @@ void op_twins(const Step& s) {
 
 void expect_incl(const std::string& law, const ET& x, const ET& y, long sel, const std::string& what) {
 	int v = incl(x, y, sel, "c19_laws:" + law + ":" + SEL_NAMES[sel]); count(c_law_checks);
-	if (v != 1) violation("C19.law-" + law, std::string("c19_laws:") + SEL_NAMES[sel], "the law " + what + " is violated: verdict " + std::to_string(v));
+	if (v != 1) c19_violation("C19.law-" + law, std::string("c19_laws:") + SEL_NAMES[sel], "the law " + what + " is violated: verdict " + std::to_string(v));
 }
 
 void op_laws(const Step& s) {
@@ -175,9 +182,9 @@ void op_laws(const Step& s) {
 	// transitivity on the triple
 	long s1 = sel(), s2 = sel(), s3 = sel();
 	int ab = incl(a, b, s1, std::string("c19_laws:transitive:") + SEL_NAMES[s1]), bc = incl(b, c, s2, std::string("c19_laws:transitive:") + SEL_NAMES[s2]);
-	if (ab == 1 && bc == 1) { int ac = incl(a, c, s3, std::string("c19_laws:transitive:") + SEL_NAMES[s3]); count(c_law_checks); if (ac != 1) violation("C19.law-transitive", std::string("c19_laws:") + SEL_NAMES[s3], "A <= B and B <= C hold but A <= C is denied"); }
+	if (ab == 1 && bc == 1) { int ac = incl(a, c, s3, std::string("c19_laws:transitive:") + SEL_NAMES[s3]); count(c_law_checks); if (ac != 1) c19_violation("C19.law-transitive", std::string("c19_laws:") + SEL_NAMES[s3], "A <= B and B <= C hold but A <= C is denied"); }
 	// union is an upper bound that is least among B's above: if A <= C and B <= C then A u B <= C
-	if (incl(a, c, s1, std::string("c19_laws:lub:") + SEL_NAMES[s1]) == 1 && incl(b, c, s2, std::string("c19_laws:lub:") + SEL_NAMES[s2]) == 1) { count(c_law_checks); if (incl(u, c, s3, std::string("c19_laws:lub:") + SEL_NAMES[s3]) != 1) violation("C19.law-union-least", std::string("c19_laws:") + SEL_NAMES[s3], "A <= C and B <= C hold but A u B <= C is denied"); }
+	if (incl(a, c, s1, std::string("c19_laws:lub:") + SEL_NAMES[s1]) == 1 && incl(b, c, s2, std::string("c19_laws:lub:") + SEL_NAMES[s2]) == 1) { count(c_law_checks); if (incl(u, c, s3, std::string("c19_laws:lub:") + SEL_NAMES[s3]) != 1) c19_violation("C19.law-union-least", std::string("c19_laws:") + SEL_NAMES[s3], "A <= C and B <= C hold but A u B <= C is denied"); }
 	note_case(mix64(A.hash(), mix64(B.hash(), C.hash())));
 }
 
@@ -226,10 +233,10 @@ void op_corpus_fa(const Step& s) {
 		if (!((s.arg(1, 7) >> alg) & 1)) continue;
 		const char* an[] = {"antichains", "congr-depth", "congr-breadth"};
 		int v = fa_incl(a, b, alg, std::string("c19_corpus_fa:") + an[alg]), v2 = fa_incl(a2, b2, alg, std::string("c19_corpus_fa:twin:") + an[alg]);
-		if (v != v2) violation("C19.verdict-invariant-under-renaming", std::string("c19_corpus_fa:") + an[alg], "NFA inclusion verdict " + std::to_string(v) + " for " + parts[0] + " <= " + parts[1] + ", " + std::to_string(v2) + " for the renamed twins");
-		if (first < 0) first = v; else if (v != first) violation("C19.all-algorithms-agree", std::string("c19_corpus_fa:") + an[alg], "NFA inclusion algorithms disagree on " + parts[0] + " <= " + parts[1]);
+		if (v != v2) c19_violation("C19.verdict-invariant-under-renaming", std::string("c19_corpus_fa:") + an[alg], "NFA inclusion verdict " + std::to_string(v) + " for " + parts[0] + " <= " + parts[1] + ", " + std::to_string(v2) + " for the renamed twins");
+		if (first < 0) first = v; else if (v != first) c19_violation("C19.all-algorithms-agree", std::string("c19_corpus_fa:") + an[alg], "NFA inclusion algorithms disagree on " + parts[0] + " <= " + parts[1]);
 	}
-	if (parts[0] == parts[1] && first == 0) violation("C19.law-reflexive", "c19_corpus_fa", "A <= A denied for " + parts[0]);
+	if (parts[0] == parts[1] && first == 0) c19_violation("C19.law-reflexive", "c19_corpus_fa", "A <= A denied for " + parts[0]);
 	note_case(mix64(hash_str(parts[0]), hash_str(parts[1])));
 }
 
